@@ -153,7 +153,9 @@ GuardsClose2(e) ==
      CG("dependents_closed_first", {"C11"}, ~discard =>
           \A j \in Ids : (cs.inst[j].owner = me.owner /\ e.inst \in cs.inst[j].deps /\ ~cs.inst[j].discarded /\ cs.inst[j].ready > 0
                              /\ cs.inst[j].disp /\ ~me.value) => cs.inst[j].closed > 0),
-     CG("descendants_before_parent", {"C11"}, (~discard /\ me.owner \in SNames /\ since > 0) =>
+     \* (also for an instance that its creator disposes because the scope is closing: such a discard only happens once
+     \* the scope has drained its own instances, i.e. after its descendants were disposed)
+     CG("descendants_before_parent", {"C11"}, (me.owner \in SNames /\ since > 0) =>
           \A j \in Ids : (cs.inst[j].owner \in (Sub(me.owner) \ {me.owner}) /\ settledBefore(j)) => cs.inst[j].closed >= 1),
      CG("scopes_before_singletons", {"C11"}, (me.owner = "prov" /\ since > 0) =>
           \A j \in Ids : (cs.inst[j].owner # "prov" /\ settledBefore(j)) => cs.inst[j].closed >= 1)}
